@@ -153,7 +153,16 @@ def gen_case(rng, unicode_mode=None, maxlen=10):
             continue
         kind = 'exact' if rng.random() < 0.55 else 're'
         pats = []
-        for _ in range(rng.choice([1, 1, 2, 2, 3])):
+        if len(stream) >= 3 and rng.random() < 0.2:
+            # nested occurrences: a pattern listed first whose match lies strictly inside the match of one listed later
+            # (the later one starts earlier and ends later, and must win)
+            i0 = rng.randrange(len(stream) - 2)
+            l0 = rng.randint(i0 + 3, min(len(stream), i0 + 6))
+            j0 = rng.randint(i0 + 1, l0 - 2)
+            k0 = rng.randint(j0 + 1, l0 - 1)
+            inner, outer = stream[j0:k0], stream[i0:l0]
+            pats = [('s', inner), ('s', outer)] if kind == 'exact' else [('r', lit(inner)), ('r', lit(outer))]
+        for _ in range(rng.choice([1, 1, 2, 2, 3]) if not pats else rng.choice([0, 0, 1])):
             if kind == 'exact':
                 x = rng.random()
                 if stream and x < 0.7:
